@@ -53,7 +53,14 @@ type verifWriter struct {
 
 func newVerifWriter() *verifWriter { return &verifWriter{failAt: -1} }
 
+// verifWriteHook: set by native-only stress entries (a yield inside Write gives the real scheduler the interleavings
+// the engine's write-yield policy explores); nil otherwise
+var verifWriteHook func()
+
 func (w *verifWriter) Write(p []byte) (int, error) {
+	if verifWriteHook != nil {
+		verifWriteHook()
+	}
 	if w.n == w.failAt {
 		w.n++
 		w.failed = true
